@@ -270,7 +270,12 @@ def index_blocked_scenarios():
 
 
 def index_twoproc_scenarios():
-    return [sc("idx:2proc-same-experiment", "index:2proc", [[XP("x", [J("a", 1)])], [XP("x", [J("b", 2)])]], fine=True)]
+    out = [sc("idx:2proc-same-experiment", "index:2proc", [[XP("x", [J("a", 1)])], [XP("x", [J("b", 2)])]], fine=True)]
+    # three holders: a process that waits for the experiment lock, gets it when the holder leaves, and is still inside when the first
+    # process (or a third one) comes back - the waiter has had the lock *file* open since before the holder left
+    out.append(sc("idx:2proc-reenter", "index:2proc", [[XP("x", [J("a", 1)]), XP("x", [J("c", 3)])], [XP("x", [J("b", 2)])]], fine=True))
+    out.append(sc("idx:3proc-same-experiment", "index:2proc", [[XP("x", [J("a", 1)])], [XP("x", [J("b", 2)])], [XP("x", [J("c", 3)])]], fine=True))
+    return out
 
 
 def special_dep_scenarios(failing=False):
@@ -401,6 +406,24 @@ def token_relaunch_scenarios():
         p1 = [XP("xpA", [TOK("t", 1), J("a", 1, code=1, tok=[("t", 1)])]), XP("xpA", [TOK("t", 1), J("a_", 1, code=0, tok=[("t", 1)])])]
         p2 = [XP("xpB", [TOK("t", 1)] + [J("bcd"[i], 2 + i, tok=[("t", 1)]) for i in range(njobs2)])]
         out.append(sc(f"2proc:tok-relaunch:{njobs2}", "2proc:tok:relaunch", [p1, p2], fine=True))
+    return out
+
+
+def token_and_dependency_scenarios():
+    """A job that waits for a token AND for an upstream job that fails (or not) while the token is busy / is given back; other jobs,
+    older or younger, wait for the same token and do not depend on anything."""
+    out = []
+    for fcode in (1, 0):
+        for order in ("consumer-first", "other-first"):
+            for cap, hold_n in ((1, 1), (2, 2)):
+                cons = J("c", 3, [("f", "up")], tok=[("t", 1)])
+                other = J("o", 4, tok=[("t", 1)])
+                tail = [cons, other] if order == "consumer-first" else [other, cons]
+                body = [TOK("t", cap), J("h", 1, tok=[("t", hold_n)]), J("f", 2, code=fcode)] + tail + [J("z", 5, tok=[("t", cap)])]
+                out.append(sc(f"tok+dep:{'fail' if fcode else 'ok'}:{order}:{cap}", "tok+dep" + (":fail" if fcode else ""), [[XP("xp", body)]]))
+    # the failing upstream itself holds the token
+    body = [TOK("t", 1), J("f", 2, code=1, tok=[("t", 1)]), J("c", 3, [("f", "ups")], tok=[("t", 1)]), J("o", 4, tok=[("t", 1)])]
+    out.append(sc("tok+dep:fail:upstream-holds", "tok+dep:fail", [[XP("xp", body)]]))
     return out
 
 
